@@ -87,7 +87,11 @@ func (p DictPattern) Bind(ctx context.Context, local Scope, value Value) (contex
 				key = lit.Literal()
 			}
 
-			dictExpr, found := m.Get(key.(Value))
+			keyVal, is := key.(Value)
+			if !is {
+				return ctx, EmptyScope, fmt.Errorf("dict pattern key %s is not a literal", key)
+			}
+			dictExpr, found := m.Get(keyVal)
 			if !found {
 				if entry.pattern.fallback == nil {
 					return ctx, EmptyScope, fmt.Errorf("couldn't find %s in dict %s", key, m)
@@ -99,7 +103,7 @@ func (p DictPattern) Bind(ctx context.Context, local Scope, value Value) (contex
 				}
 			} else {
 				dictValue = dictExpr.(Value)
-				m = m.Without(key.(Value))
+				m = m.Without(keyVal)
 			}
 		}
 
